@@ -399,7 +399,11 @@ class FileDownloader(Resource, object):
 
                 if first == '':
                     # suffix-byte-range-spec
-                    first = filesize - int(last)
+                    suffix_length = int(last)
+                    if suffix_length < 0:
+                        # int() accepts a sign, the grammar does not
+                        raise ValueError
+                    first = filesize - suffix_length
                     last = filesize - 1
                 else:
                     # byte-range-spec
@@ -412,9 +416,13 @@ class FileDownloader(Resource, object):
                         last = filesize - 1
                     else:
                         last = int(last)
-
-                if last < first:
-                    raise ValueError
+                        # Only an explicit last-byte-pos smaller than the
+                        # first-byte-pos makes the spec invalid (and the
+                        # header ignored).  A range that is valid but
+                        # starts at or beyond the end of the file is
+                        # unsatisfiable: render() answers that with 416.
+                        if last < first:
+                            raise ValueError
 
                 return (first, last)
 
